@@ -4,6 +4,7 @@ import (
 	"bytes"
 	"encoding/binary"
 	"fmt"
+	"go/token"
 	"sort"
 	"strings"
 
@@ -59,41 +60,148 @@ func ruleHeaderLayout(c *Check, rule string) {
 // R1 PUTBASIC-COVERAGE.
 func rulePutBasic(c *Check, rule string) {
 	name := "lmdbenv/header.PutBasic"
-	fn, paths := c.walkFn(rule, name, WalkConfig{})
-	if paths == nil {
+	fn := c.P.Func(name)
+	if fn == nil || fn.Blocks == nil || len(fn.Params) < 4 {
+		c.Undecided(rule, name, "anchor function not found in the current tree", "")
 		return
 	}
+	c.UseFunc(name)
 	pos := c.P.Pos(fn.Pos())
-	if len(paths) != 1 {
-		c.Undecided(rule, name, "expected straight-line code", pos)
-		return
+	bufP := fn.Params[0]
+	// the value written: which parameter (through conversions) or constant
+	origin := func(v ssa.Value) string {
+		for d := 0; d < 4; d++ {
+			switch x := v.(type) {
+			case *ssa.Convert:
+				v = x.X
+				continue
+			case *ssa.ChangeType:
+				v = x.X
+				continue
+			case *ssa.Parameter:
+				return "param:" + x.Name()
+			case *ssa.Const:
+				return constStr(x)
+			}
+			break
+		}
+		return v.Name()
 	}
-	p := &paths[0]
-	b, ts, tx, fl := param(fn, 0), param(fn, 1), param(fn, 2), param(fn, 3)
-	buf := "slice(" + b + ",,const:24,)"
+	// is v the buffer parameter, possibly resliced from its start?
+	var isBuf func(v ssa.Value) bool
+	isBuf = func(v ssa.Value) bool {
+		if v == ssa.Value(bufP) {
+			return true
+		}
+		if sl, ok := v.(*ssa.Slice); ok && (sl.Low == nil || isZeroConst(sl.Low)) {
+			return isBuf(sl.X)
+		}
+		return false
+	}
+	konst := func(v ssa.Value) (int64, bool) {
+		if v == nil {
+			return 0, true
+		}
+		k, ok := v.(*ssa.Const)
+		if !ok || k.Value == nil {
+			return 0, false
+		}
+		return k.Int64(), true
+	}
+	// index range of a store: a constant, or a counting loop variable with
+	// constant start and bound
+	idxRange := func(v ssa.Value) (int64, int64, bool) {
+		if k, ok := konst(v); ok && v != nil {
+			return k, k + 1, true
+		}
+		phi, ok := v.(*ssa.Phi)
+		if !ok || !isLoopHeader(phi.Block()) {
+			return 0, 0, false
+		}
+		start, haveStart := int64(0), false
+		for i, e := range phi.Edges {
+			if phi.Block().Dominates(phi.Block().Preds[i]) {
+				add, ok := e.(*ssa.BinOp)
+				if !ok || add.Op != token.ADD || add.X != ssa.Value(phi) {
+					return 0, 0, false
+				}
+				if k, ok := konst(add.Y); !ok || k != 1 {
+					return 0, 0, false
+				}
+				continue
+			}
+			k, ok := konst(e)
+			if !ok {
+				return 0, 0, false
+			}
+			start, haveStart = k, true
+		}
+		iff, ok := phi.Block().Instrs[len(phi.Block().Instrs)-1].(*ssa.If)
+		if !ok || !haveStart {
+			return 0, 0, false
+		}
+		cmp, ok := iff.Cond.(*ssa.BinOp)
+		if !ok || cmp.X != ssa.Value(phi) {
+			return 0, 0, false
+		}
+		end, ok := konst(cmp.Y)
+		if !ok {
+			return 0, 0, false
+		}
+		switch cmp.Op {
+		case token.LSS:
+			return start, end, true
+		case token.LEQ:
+			return start, end + 1, true
+		}
+		return 0, 0, false
+	}
 	covered := make([]string, 24)
-	for _, e := range p.Events {
-		switch {
-		case e.Kind == "call" && e.Callee == "(encoding/binary.bigEndian).PutUint64":
-			for off, v := range map[string]string{"slice(" + buf + ",,const:8,)": ts, "slice(" + buf + ",const:8,const:16,)": tx} {
-				if e.Args[1] == off && e.Args[2] == v {
-					lo := 0
-					if strings.Contains(off, "const:8,const:16") {
-						lo = 8
-					}
-					for i := lo; i < lo+8; i++ {
-						covered[i] = v
+	unknown := ""
+	for _, b := range fn.Blocks {
+		for _, in := range b.Instrs {
+			switch x := in.(type) {
+			case *ssa.Call:
+				callee := x.Common().StaticCallee()
+				if callee == nil || !strings.Contains(callee.String(), "bigEndian).PutUint64") {
+					continue
+				}
+				args := x.Common().Args
+				sl, ok := args[len(args)-2].(*ssa.Slice)
+				if !ok || !isBuf(sl.X) {
+					continue
+				}
+				lo, ok1 := konst(sl.Low)
+				if !ok1 {
+					unknown = "PutUint64 at a non-constant offset"
+					continue
+				}
+				for i := lo; i < lo+8 && i < 24; i++ {
+					covered[i] = origin(args[len(args)-1])
+				}
+			case *ssa.Store:
+				ia, ok := x.Addr.(*ssa.IndexAddr)
+				if !ok || !isBuf(ia.X) {
+					continue
+				}
+				lo, hi, ok := idxRange(ia.Index)
+				if !ok {
+					unknown = "a store at an index that is neither constant nor a constant-bounded counter"
+					continue
+				}
+				for i := lo; i < hi && i < 24; i++ {
+					if i >= 0 {
+						covered[i] = origin(x.Val)
 					}
 				}
 			}
-		case e.Kind == "store" && strings.HasPrefix(e.Addr, "&"+buf+"[const:"):
-			var k int
-			fmt.Sscanf(strings.TrimPrefix(e.Addr, "&"+buf+"[const:"), "%d", &k)
-			if k >= 0 && k < 24 {
-				covered[k] = e.Val
-			}
 		}
 	}
+	if unknown != "" {
+		c.Undecided(rule, name, "cannot account for every write: "+unknown, pos)
+		return
+	}
+	ts, tx, fl := "param:"+fn.Params[1].Name(), "param:"+fn.Params[2].Name(), "param:"+fn.Params[3].Name()
 	bad := 0
 	for i := 0; i < 24; i++ {
 		want := "const:0"
@@ -113,6 +221,11 @@ func rulePutBasic(c *Check, rule string) {
 	if bad == 0 {
 		c.Ok(rule, name, "all 24 header bytes are written: big-endian timestamp at 0-7, txn id at 8-15, version 0, the flags argument at 17, reserved bytes and both extension-count bytes 0", pos)
 	}
+}
+
+func isZeroConst(v ssa.Value) bool {
+	k, ok := v.(*ssa.Const)
+	return ok && k.Value != nil && k.Int64() == 0
 }
 
 // R6 PARSE-GUARDS: Parse and Skip tables interpreted on byte strings.
